@@ -307,16 +307,13 @@ theorem filter_ok_of_valid (t : Ty) (v : J) (h : valid t v = true) : (filter t v
 
 /-- Narrowing chain: for a value that is clean at the wider type `s`,
 filtering to `s` and then to the narrower `d` equals filtering to `d`
-directly.  Hypotheses: `pureNarrow d s` (no `map`/`map<T>` destination takes
-the place of a struct/typed map – those destinations filter less than `s`
-did) and `dupFree s v` (no duplicated key at a typed-map position; with
-duplicates the two sides agree only up to `dedupLast`).  Both are needed:
-see the three witnesses below. -/
+directly.  Hypothesis `pureNarrow d s`: no `map`/`map<T>` destination takes
+the place of a struct/typed map (those destinations filter less than `s`
+did).  Both it and `valid s v` are needed: see the two witnesses below. -/
 theorem filter_narrow_chain (d s : Ty) (v : J) (hd : d.wf = true) (hs : s.wf = true)
-    (hv : valid s v = true) (hdf : dupFree s v = true)
-    (ha : assignable d s = true) (hp : pureNarrow d s = true) :
+    (hv : valid s v = true) (ha : assignable d s = true) (hp : pureNarrow d s = true) :
     (filter d (filter s v).1).1 = (filter d v).1 :=
-  filter_chain d hd s v hs hv hdf ha hp
+  filter_chain d hd s v hs hv ha hp
 
 /-- non-vacuity: struct narrowing through nested types with a coercion -/
 example :
@@ -324,7 +321,7 @@ example :
     let s : Ty := .struct [0x53] (.cons kb (.tmap (.base .int)) (.cons ka (.arr tA) (.cons kx (.base .int) .nil)))
     let v : J := .obj [(kx, .num (.int 1)), (ka, .arr [.obj [(ka, .num (.int 2)), (kx, .null)]]),
                        (kb, .obj [(ka, .num (.int 3)), (kb, .null)])]
-    d.wf = true ∧ s.wf = true ∧ valid s v = true ∧ dupFree s v = true ∧
+    d.wf = true ∧ s.wf = true ∧ valid s v = true ∧
       assignable d s = true ∧ pureNarrow d s = true := by decide
 
 /-- witness: without `pureNarrow` (`map ← struct A`) the chain equation fails:
@@ -346,52 +343,52 @@ theorem chain_fails_invalid_source :
     (filter (.base .float) (.num (.flt 10 (-1)))).1 = .num (.flt 10 (-1)) :=
   ⟨by decide, rfl, rfl⟩
 
-/-- witness: without `dupFree` (`map<float> ← map<int>`, `{"a":1,"a":2}`) the
-two sides differ by the shadowed duplicate. -/
-theorem chain_fails_duplicate_key :
-    valid (.tmap (.base .int)) (.obj [(ka, .num (.int 1)), (ka, .num (.int 2))]) = true ∧
-    (filter (.tmap (.base .float))
-      (filter (.tmap (.base .int)) (.obj [(ka, .num (.int 1)), (ka, .num (.int 2))])).1).1
-      = .obj [(ka, .num (.int 2))] ∧
-    (filter (.tmap (.base .float)) (.obj [(ka, .num (.int 1)), (ka, .num (.int 2))])).1
-      = .obj [(ka, .num (.int 1)), (ka, .num (.int 2))] :=
-  ⟨by decide, rfl, rfl⟩
+/-! ### 8. duplicate keys: objects are association LISTS
 
-/-! ### 8. duplicate keys: objects are association LISTS, last member wins -/
+Every theorem above holds for arbitrary association lists, duplicates
+included.  The real code decodes an object into a Go map before it looks at
+it, i.e. it sees `dedupLast kvs` (for every key its LAST member).
+* At struct-typed positions the model does exactly that (`getKey` is
+  last-wins): `valid_struct_last_wins`, `filter_struct_last_wins`.
+* At typed-map positions the model looks at every member of the list; the
+  real code at the members of `dedupLast kvs`.  The two agree on objects
+  without duplicated keys (`dedupLast_of_nodup`), and the correspondence is
+  run as  real(v) ≃ model(v with every object in last-wins normal form),
+  outputs compared up to that normal form.  `tmap_shadowed_member` is the
+  negative witness for the raw list (replayed on the real code). -/
 
-/-- All theorems above are about arbitrary association lists.  What the type
-system sees of an object with duplicated keys is its last-wins normal form: -/
-theorem valid_last_wins (t : Ty) (kvs : List (Bytes × J)) :
-    valid t (.obj kvs) = valid t (.obj (dedupLast kvs)) := by
-  cases t with
-  | base b => cases b <;> simp [valid, check, checkBase]
-  | user n => simp [valid, check]
-  | arr t => simp [valid, check]
-  | tmap t => simp [valid, check, dedupLast_of_nodup (keys_dedupLast_nodup kvs)]
-  | struct n fs => simp [valid, check, checkFields_dedupLast]
+theorem valid_struct_last_wins (n : Bytes) (fs : Fields) (kvs : List (Bytes × J)) :
+    valid (.struct n fs) (.obj kvs) = valid (.struct n fs) (.obj (dedupLast kvs)) := by
+  simp [valid, check, checkFields_dedupLast]
 
-/-- … and filtering an object equals filtering its last-wins normal form
-(for every type that rebuilds objects; `map` and types that cannot filter
-return their input as it is). -/
-theorem filter_last_wins (t : Ty) (kvs : List (Bytes × J))
-    (h : (∃ e, t = .tmap e ∧ canFilter e = true) ∨ ∃ n fs, t = .struct n fs) :
-    filter t (.obj kvs) = filter t (.obj (dedupLast kvs)) := by
-  rcases h with ⟨e, rfl, hc⟩ | ⟨n, fs, rfl⟩
-  · simp [filter, hc, dedupLast_of_nodup (keys_dedupLast_nodup kvs)]
-  · simp [filter, filterFields_dedupLast]
+theorem filter_struct_last_wins (n : Bytes) (fs : Fields) (kvs : List (Bytes × J)) :
+    filter (.struct n fs) (.obj kvs) = filter (.struct n fs) (.obj (dedupLast kvs)) := by
+  simp [filter, filterFields_dedupLast]
 
-/-- a shadowed (earlier) duplicate is never looked at: `{"a":"x","a":1}` is a
-clean `map<int>` and a clean `struct A(int a)`; filtering keeps the last
-member only.  (Replayed on the real code: corpus/C17.) -/
-theorem shadowed_duplicate_ignored :
-    valid (.tmap (.base .int)) (.obj [(ka, .str kx), (ka, .num (.int 1))]) = true ∧
+/-- the normal form has no duplicated key, keeps exactly the last members, and
+is a fixed point -/
+theorem dedupLast_spec (kvs : List (Bytes × J)) :
+    ((dedupLast kvs).map Prod.fst).Nodup ∧
+    (∀ k v, (k, v) ∈ dedupLast kvs ↔ getKey k kvs = some v) ∧
+    dedupLast (dedupLast kvs) = dedupLast kvs :=
+  ⟨keys_dedupLast_nodup kvs, fun _ _ => mem_dedupLast_iff,
+    dedupLast_of_nodup (keys_dedupLast_nodup kvs)⟩
+
+/-- struct positions: a shadowed (earlier) duplicate is never looked at –
+`{"a":"x","a":1}` is a clean `struct A(int a)`, and filtering keeps the last member. -/
+theorem struct_shadowed_member_ignored :
     valid tA (.obj [(ka, .str kx), (ka, .num (.int 1))]) = true ∧
-    filter tA (.obj [(ka, .str kx), (ka, .num (.flt 10 (-1)))]) = (.obj [(ka, .num (.int 1))], .soft) ∧
-    filter (.tmap (.base .int)) (.obj [(ka, .str kx), (ka, .num (.flt 10 (-1)))])
-      = (.obj [(ka, .num (.int 1))], .soft) :=
-  ⟨by decide, by decide, rfl, rfl⟩
+    filter tA (.obj [(ka, .str kx), (ka, .num (.flt 10 (-1)))]) = (.obj [(ka, .num (.int 1))], .soft) :=
+  ⟨by decide, rfl⟩
 
-/-- the reverse order is rejected: the LAST member decides -/
-example : valid (.tmap (.base .int)) (.obj [(ka, .num (.int 1)), (ka, .str kx)]) = false := by decide
+/-- typed-map positions, negative witness for the RAW list: the model rejects
+`{"a":"x","a":1}` as `map<int>` (it looks at the shadowed member) but accepts
+its last-wins normal form `{"a":1}` – which is what the real code validates
+(it answers ok; replayed from corpus/C17). -/
+theorem tmap_shadowed_member :
+    valid (.tmap (.base .int)) (.obj [(ka, .str kx), (ka, .num (.int 1))]) = false ∧
+    dedupLast [(ka, J.str kx), (ka, .num (.int 1))] = [(ka, .num (.int 1))] ∧
+    valid (.tmap (.base .int)) (.obj (dedupLast [(ka, .str kx), (ka, .num (.int 1))])) = true :=
+  ⟨by decide, rfl, by decide⟩
 
 end Props.C17
